@@ -17,7 +17,7 @@
 //   w.mk k g cls sel                 -> x.. ; o.. ; p..   wrapper register k := new <cls>(f_g) when sel = `all` (first
 //                                       constructor), else new <cls>(f_g, list) (second constructor) with list = the
 //                                       comma separated items of sel in that order: `i` a copy of the function's
-//                                       parameter i, `i@<hex>` the same with another value, `f` a foreign parameter
+//                                       parameter i, `i@<hex>` the same with another value, `i!` the same without its constraint, `f` a foreign parameter
 //                                       (x.. transformed values, o.. back-transformed values in the wrapper's order,
 //                                       p.. all the function's values)
 //   w.new n {...}^n                  = drop everything, f.new 0, w.mk 0 0 2 all, w.use 0
@@ -239,6 +239,12 @@ static std::string mkW(State& s, size_t k, size_t g, int cls, const std::string&
       std::string tok = sel.substr(pos, c - pos); pos = c + 1;
       size_t at = tok.find('@');
       if (tok == "f") pl.addParameter(Parameter("zz", 1.));
+      else if (tok.back() == '!')
+      {
+        // the function's parameter i given WITHOUT its constraint: Parameter(name, value)
+        const Parameter& p = fn->getParameters().parameter(pname(*fn, toU(tok.substr(0, tok.size() - 1))));
+        pl.addParameter(Parameter(p.getName(), p.getValue()));
+      }
       else if (at == std::string::npos) pl.addParameter(fn->getParameters().parameter(pname(*fn, toU(tok))));
       else
       {
